@@ -169,6 +169,11 @@ func (tc *termCtx) term(v ssa.Value, d int) string {
 	case *ssa.SliceToArrayPointer:
 		return tc.term(v.X, d+1)
 	case *ssa.Slice:
+		if a, ok := v.X.(*ssa.Alloc); ok && v.Low == nil && v.High == nil {
+			if lit, ok := tc.arrayLiteral(a, d); ok {
+				return lit // variadic argument list / array literal: [a, b, c]
+			}
+		}
 		lo, hi := "", ""
 		if v.Low != nil {
 			lo = tc.term(v.Low, d+1)
@@ -493,4 +498,42 @@ func (ff *FuncFacts) callOrdinal(call *ssa.Call, base string) int {
 	}
 	ff.callOrd[call] = res
 	return res
+}
+
+// arrayLiteral renders a local array whose elements are each stored once at a
+// constant index (the compiler's lowering of f(xs...) and of array literals).
+func (tc *termCtx) arrayLiteral(a *ssa.Alloc, d int) (string, bool) {
+	arr, ok := derefArray(a.Type())
+	if !ok || arr.Len() > 8 {
+		return "", false
+	}
+	elems := make([]string, arr.Len())
+	for _, r := range *a.Referrers() {
+		switch r := r.(type) {
+		case *ssa.IndexAddr:
+			idx, ok := constInt(r.Index)
+			if !ok || !idx.IsInt64() || idx.Int64() < 0 || idx.Int64() >= arr.Len() {
+				return "", false
+			}
+			n := 0
+			for _, rr := range *r.Referrers() {
+				if st, ok := rr.(*ssa.Store); ok && st.Addr == r {
+					n++
+					elems[idx.Int64()] = tc.term(st.Val, d+1)
+				}
+			}
+			if n != 1 {
+				return "", false
+			}
+		case *ssa.Slice, *ssa.DebugRef:
+		default:
+			return "", false
+		}
+	}
+	for i, e := range elems {
+		if e == "" {
+			elems[i] = "zero"
+		}
+	}
+	return "[" + strings.Join(elems, ", ") + "]", true
 }
